@@ -302,16 +302,52 @@ def immutable_after_construction(cx, adt, fields, rule='ENC', allow=()):
 # ------------------------------------------------------------------------------------------------ MEMO
 
 def memo(cx, adt, cache_field, rule='MEMO', floor=1):
-    """memo-key completeness for every function that looks `self.<cache_field>` up (discovered, not listed)."""
+    """memo-key completeness for every function that looks `self.<cache_field>` up or stores into it (discovered, not listed)."""
     n = 0
     for b in sorted(user_bodies(cx.facts), key=lambda x: x.name):
         if b.argc < 1 or adt_of_type(b.local_ty(1)) != adt:
             continue
-        if any(match(f'(field {cache_field} (param self))', cx.arg(s, 0)) is not None for s in b.calls('HashMap::get')):
+        looks = any(match(f'(field {cache_field} (param self))', cx.arg(s, 0)) is not None for s in b.calls('HashMap::get'))
+        stores = [s for s in b.calls('HashMap::insert') if find(f'(field {cache_field} (has (param self)))', cx.arg(s, 0)) is not None]
+        if looks:
             n += 1
             cx.analysed_fns.add(b.name)
             memo_fn(cx, b.name, adt, cache_field, rule)
+        elif stores:
+            cx.analysed_fns.add(b.name)
+            memo_store_only(cx, b, stores, adt, cache_field, rule)
     cx.floor(rule, f'{adt}.{cache_field}', n, floor, f'functions consulting the memo {adt.split("::")[-1]}.{cache_field}')
+
+
+def memo_store_only(cx, b, stores, adt, cache_field, rule):
+    """a function that writes the memo without consulting it: the stored value and every branch on the way to the store may
+    depend only on the key and on immutable state (otherwise a later lookup returns a verdict computed for someone else)."""
+    from .core import leaves
+    short = b.name.split('::')[-1]
+    for s in stores:
+        k, v = cx.arg(s, 1), cx.arg(s, 2)
+        back = set()
+        work = [s.bb]
+        while work:
+            x = work.pop()
+            if x in back:
+                continue
+            back.add(x)
+            work.extend(b.pred[x])
+        lv = set(leaves(v))
+        for bi in sorted(back):
+            t = b.blocks[bi]['term']
+            if t['k'] == 'switch':
+                # only branches that can also avoid the store decide whether it happens
+                if any(x not in back for x in b.succ[bi]) or True:
+                    c = simplify(b.dag().operand(t['d'], bi, len(b.blocks[bi]['stmts'])))
+                    lv |= set(leaves(c))
+        keyl = set(leaves(k))
+        params = {l for l in lv if l[0] == 'param' and l[1] != 1}
+        extra = sorted(p[2] for p in params if p not in keyl)
+        cx.ob(rule, f'{b.name}:store-covers-inputs', not extra,
+              f'{short}: a value written into self.{cache_field} (and the branches deciding the write) depends only on the key `{show(k)}` and on immutable state',
+              where=s, found=('the write depends on parameter(s) ' + ', '.join(extra) + ' which are not in the key') if extra else None)
 
 
 def memo_fn(cx, fname, adt, cache_field, rule='MEMO'):
